@@ -2,7 +2,7 @@ CONSTANTS
   MaxT = 3
   MaxK = 4
   Shifts = {"0", "a", "b", "c"}
-  Drivers = {"model", "model_range", "loader_stack", "loader_multi", "loader_range", "group_list", "group_map", "group_map_hetero"}
+  Drivers = {"model", "model_range", "loader_stack", "loader_multi", "loader_range", "group_list", "group_map", "group_map_hetero", "group_map_factory"}
   Models = {"ZNCC", "NCC", "PCC"}
   IncludeBig = TRUE
 SPECIFICATION Spec
